@@ -22,10 +22,12 @@ Subnormals, infinities and NaN are outside: ranges are asserted to stay within
 from __future__ import annotations
 
 import ast
+import copy
 import inspect
 import math
 import textwrap
 import time
+import types
 from fractions import Fraction as Fr
 
 import z3
@@ -61,7 +63,27 @@ class Ctx:
 # ---------------------------------------------------------------------------
 # symbolic values
 # ---------------------------------------------------------------------------
-class IntV:
+class _Sym:
+    """symbolic values are immutable: copying an environment shares them"""
+
+    def __deepcopy__(self, memo):
+        return self
+
+    def __copy__(self):
+        return self
+
+
+class RaiseV:
+    """an exception raised while evaluating an expression (propagates to the enclosing statement)"""
+
+    def __init__(self, exc_type, text=""):
+        self.exc_type, self.text = exc_type, text
+
+    def __repr__(self):
+        return f"RaiseV({getattr(self.exc_type, '__name__', self.exc_type)})"
+
+
+class IntV(_Sym):
     """exact integer: z3 Int term with python-int bounds"""
 
     def __init__(self, t, lo, hi):
@@ -71,7 +93,7 @@ class IntV:
         return f"IntV({self.t},[{self.lo},{self.hi}])"
 
 
-class RatV:
+class RatV(_Sym):
     """exact rational P/Q (Q python int > 0) with Fraction bounds; is_double marks a value
     known to be exactly representable as a binary64"""
 
@@ -86,7 +108,7 @@ class FracV(RatV):
     """exact rational number object (fractions.Fraction / exact decimal): arithmetic does not round"""
 
 
-class DecStr:
+class DecStr(_Sym):
     """a decimal numeral string  <p>/10**k  (k fraction digits), p an IntV; models what
     re.Match.group returns for patterns like \\d+(\\.\\d+)?"""
 
@@ -94,7 +116,7 @@ class DecStr:
         self.p, self.k = p, k
 
 
-class IntStr:
+class IntStr(_Sym):
     """a string of ASCII digits denoting the IntV"""
 
     def __init__(self, v: IntV):
@@ -103,6 +125,22 @@ class IntStr:
 
 def _sym(v):
     return isinstance(v, (IntV, RatV))
+
+
+def _has_sym(x, depth=3):
+    """does x (an argument) carry symbolic values, directly or inside its attributes / items?"""
+    if isinstance(x, _Sym):
+        return True
+    if depth == 0 or x is None or isinstance(x, (int, float, str, bytes, bool, type, types.FunctionType)):
+        return False
+    if isinstance(x, (list, tuple, set)):
+        return any(_has_sym(y, depth - 1) for y in x)
+    if isinstance(x, dict):
+        return any(_has_sym(y, depth - 1) for y in x.values())
+    d = getattr(x, "__dict__", None)
+    if isinstance(d, dict):
+        return any(_has_sym(y, depth - 1) for y in d.values())
+    return False
 
 
 def const_rat(x) -> RatV:
@@ -119,6 +157,8 @@ def to_rat(v) -> RatV:
         raise Unsupported("bool in arithmetic")
     if isinstance(v, (int, float)):
         return const_rat(v)
+    if isinstance(v, Fr):
+        return RatV(z3.IntVal(v.numerator), v.denominator, v, v)
     raise Unsupported(f"to_rat {type(v)}")
 
 
@@ -257,10 +297,13 @@ class Evaluator:
     """Evaluates a python function's AST on a mix of concrete and symbolic values.
     Expressions evaluate to a list of (value, constraints) alternatives."""
 
-    def __init__(self, ctx: Ctx, globs: dict, stubs: dict | None = None):
+    INLINE_PREFIX = "pycaption"
+
+    def __init__(self, ctx: Ctx, globs: dict, stubs: dict | None = None, depth: int = 0):
         self.ctx = ctx
         self.globs = globs
         self.stubs = stubs or {}
+        self.depth = depth
 
     # ---- expressions -----------------------------------------------------
     def ev(self, node, env, cons):
@@ -285,19 +328,33 @@ class Evaluator:
     def ev_Attribute(self, node, env, cons):
         out = []
         for v, c in self.ev(node.value, env, cons):
-            if _sym(v) or isinstance(v, (DecStr, IntStr)):
+            if isinstance(v, RaiseV):
+                out.append((v, c))
+            elif _sym(v) or isinstance(v, (DecStr, IntStr)):
                 out.append((("boundmethod", v, node.attr), c))
             else:
-                out.append((getattr(v, node.attr), c))
+                try:
+                    out.append((getattr(v, node.attr), c))
+                except AttributeError as e:
+                    out.append((RaiseV(AttributeError, str(e)), c))
         return out
 
     def ev_Subscript(self, node, env, cons):
         out = []
         for v, c in self.ev(node.value, env, cons):
+            if isinstance(v, RaiseV):
+                out.append((v, c))
+                continue
             for i, c2 in self.ev(node.slice, env, c):
+                if isinstance(i, RaiseV):
+                    out.append((i, c2))
+                    continue
                 if _sym(i):
                     raise Unsupported("symbolic subscript")
-                out.append((v[i], c2))
+                try:
+                    out.append((v[i], c2))
+                except (KeyError, IndexError, TypeError) as e:
+                    out.append((RaiseV(type(e), str(e)), c2))
         return out
 
     def ev_Slice(self, node, env, cons):
@@ -322,7 +379,9 @@ class Evaluator:
     def ev_UnaryOp(self, node, env, cons):
         out = []
         for v, c in self.ev(node.operand, env, cons):
-            if isinstance(node.op, ast.USub):
+            if isinstance(v, RaiseV):
+                out.append((v, c))
+            elif isinstance(node.op, ast.USub):
                 if _sym(v):
                     for v2, c2 in self.binop(ast.Sub(), 0, v, c):
                         out.append((v2, c2))
@@ -344,7 +403,13 @@ class Evaluator:
     def ev_BinOp(self, node, env, cons):
         out = []
         for a, c in self.ev(node.left, env, cons):
+            if isinstance(a, RaiseV):
+                out.append((a, c))
+                continue
             for b, c2 in self.ev(node.right, env, c):
+                if isinstance(b, RaiseV):
+                    out.append((b, c2))
+                    continue
                 out.extend(self.binop(node.op, a, b, c2))
         return out
 
@@ -355,7 +420,17 @@ class Evaluator:
                  ast.FloorDiv: operator.floordiv, ast.Mod: operator.mod, ast.Pow: operator.pow}.get(type(op))
             if f is None:
                 raise Unsupported(f"operator {type(op).__name__}")
-            return [(f(a, b), cons)]
+            if _has_sym(a, 1) or _has_sym(b, 1):
+                # objects carrying symbolic values: use the class's own operator method, inlined
+                name = {ast.Add: "__add__", ast.Sub: "__sub__", ast.Mult: "__mul__"}.get(type(op))
+                m = getattr(type(a), name, None) if name else None
+                if m is None:
+                    raise Unsupported("operator on object with symbolic fields")
+                return self.call(m, [a, b], {}, cons)
+            try:
+                return [(f(a, b), cons)]
+            except Exception as e:
+                return [(RaiseV(type(e), str(e)), cons)]
         a_int = isinstance(a, IntV) or (isinstance(a, int) and not isinstance(a, bool))
         b_int = isinstance(b, IntV) or (isinstance(b, int) and not isinstance(b, bool))
         ra, rb = to_rat(a), to_rat(b)
@@ -417,7 +492,13 @@ class Evaluator:
         out = []
         op = node.ops[0]
         for a, c in self.ev(node.left, env, cons):
+            if isinstance(a, RaiseV):
+                out.append((a, c))
+                continue
             for b, c2 in self.ev(node.comparators[0], env, c):
+                if isinstance(b, RaiseV):
+                    out.append((b, c2))
+                    continue
                 if not _sym(a) and not _sym(b):
                     import operator
                     f = {ast.Eq: operator.eq, ast.NotEq: operator.ne, ast.Lt: operator.lt, ast.LtE: operator.le,
@@ -451,7 +532,9 @@ class Evaluator:
         def go(i, cons):
             for v, c in self.ev(node.values[i], env, cons):
                 last = i == len(node.values) - 1
-                if isinstance(v, z3.BoolRef):
+                if isinstance(v, RaiseV):
+                    results.append((v, c))
+                elif isinstance(v, z3.BoolRef):
                     if last:
                         results.append((v, c))
                     elif is_and:
@@ -473,14 +556,19 @@ class Evaluator:
     def ev_IfExp(self, node, env, cons):
         out = []
         for t, c in self.branch(node.test, env, cons):
-            out.extend(self.ev(node.body if t else node.orelse, env, c))
+            if isinstance(t, RaiseV):
+                out.append((t, c))
+            else:
+                out.extend(self.ev(node.body if t else node.orelse, env, c))
         return out
 
     def branch(self, test, env, cons):
         """yield (python bool, constraints) alternatives for a condition"""
         out = []
         for v, c in self.ev(test, env, cons):
-            if isinstance(v, z3.BoolRef):
+            if isinstance(v, RaiseV):
+                out.append((v, c))
+            elif isinstance(v, z3.BoolRef):
                 out.append((True, c + [v]))
                 out.append((False, c + [z3.Not(v)]))
             elif _sym(v):
@@ -507,22 +595,51 @@ class Evaluator:
                 for a in node.args:
                     arg_alts = [(vs + [v], c3) for vs, c2 in arg_alts for v, c3 in self.ev(a, env, c2)]
                 for args, c2 in arg_alts:
-                    out.extend(self.call(f, args, kws, c2))
+                    bad = [a for a in [f] + args + list(kws.values()) if isinstance(a, RaiseV)]
+                    if bad:
+                        out.append((bad[0], c2))
+                    else:
+                        out.extend(self.call(f, args, kws, c2))
         return out
 
     def call(self, f, args, kws, cons):
         ctx = self.ctx
-        if f in self.stubs:
-            return self.stubs[f](self, args, kws, cons)
+        try:
+            stub = self.stubs.get(f)
+        except TypeError:
+            stub = None
+        if stub is not None:
+            r = stub(self, args, kws, cons)
+            if r is not None:
+                return r
         if isinstance(f, tuple) and f and f[0] == "boundmethod":
             _, obj, name = f
             key = (type(obj).__name__, name)
             if key in self.stubs:
                 return self.stubs[key](self, obj, args, kws, cons)
             raise Unsupported(f"method {name} on {type(obj).__name__}")
-        symbolic = any(_sym(a) or isinstance(a, (DecStr, IntStr)) for a in args)
+        symbolic = any(_sym(a) or isinstance(a, (DecStr, IntStr)) for a in args) or \
+            any(_sym(a) or isinstance(a, (DecStr, IntStr)) for a in kws.values())
+        deep = symbolic or any(_has_sym(a) for a in args) or any(_has_sym(a) for a in kws.values()) or \
+            _has_sym(getattr(f, "__self__", None))
+        target = self._inline_target(f)
+        if deep and target is not None:
+            return self._inline(target, f, args, kws, cons)
+        if f is isinstance and len(args) == 2 and _sym(args[0]):
+            import numbers
+            kinds = (int, numbers.Number, numbers.Integral, numbers.Real) if isinstance(args[0], IntV) and not isinstance(args[0], RatV) \
+                else (float, numbers.Number, numbers.Real)
+            want = args[1] if isinstance(args[1], tuple) else (args[1],)
+            return [(any(k in kinds for k in want), cons)]
         if not symbolic:
-            return [(f(*args, **kws), cons)]
+            if deep and f in (len, list, tuple, reversed, enumerate, zip, any, all, isinstance, hasattr, getattr, id, type, repr):
+                pass
+            try:
+                return [(f(*args, **kws), cons)]
+            except Unsupported:
+                raise
+            except Exception as e:
+                return [(RaiseV(type(e), str(e)), cons)]
         if f is int and len(args) == 1:
             a = args[0]
             if isinstance(a, IntStr):
@@ -560,11 +677,99 @@ class Evaluator:
             if a.lo < 0:
                 out.append((RatV(-a.P, a.Q, max(-a.hi, 0), -a.lo, a.is_double), cons + [a.P < 0]))
             return out
+        if f is round and len(args) == 1 and isinstance(args[0], (RatV, IntV)):
+            # round half to even to an integer
+            a = to_rat(args[0])
+            q = ctx.fresh("q")
+            d = 2 * (q * a.Q) - 2 * a.P  # 2*(q - x)*Q
+            return [(IntV(q, math.floor(a.lo) - 1, math.ceil(a.hi) + 1),
+                     cons + [d <= a.Q, d >= -a.Q, z3.Implies(z3.Or(d == a.Q, d == -a.Q), q % 2 == 0)])]
+        if f is str and len(args) == 1 and isinstance(args[0], IntV):
+            return [(IntStr(args[0]), cons)]
+        if f is bool and len(args) == 1 and _sym(args[0]):
+            r = to_rat(args[0])
+            return [(r.P != 0, cons)]
+        if f in (min, max) and len(args) == 2 and not kws:
+            a, b = to_rat(args[0]), to_rat(args[1])
+            le = a.P * b.Q <= b.P * a.Q
+            first, second = (args[0], args[1]) if f is min else (args[1], args[0])
+            return [(first, cons + [le]), (second, cons + [z3.Not(le)])]
         raise Unsupported(f"call {getattr(f, '__name__', f)} on symbolic arguments")
+
+    # ---- inlining of the library's own python functions ---------------------
+    def _inline_target(self, f):
+        """(function object, bound self or None, kind) if f is python code of the library"""
+        pre = self.INLINE_PREFIX
+        if isinstance(f, types.MethodType):
+            fn = f.__func__
+            if isinstance(fn, types.FunctionType) and fn.__module__ and fn.__module__.startswith(pre):
+                return fn, f.__self__, "method"
+            return None
+        if isinstance(f, types.FunctionType):
+            if f.__module__ and f.__module__.startswith(pre):
+                return f, None, "function"
+            return None
+        if isinstance(f, type) and f.__module__ and f.__module__.startswith(pre) and not issubclass(f, BaseException):
+            init = f.__dict__.get("__init__")
+            for k in f.__mro__:
+                if "__init__" in k.__dict__:
+                    init = k.__dict__["__init__"]
+                    break
+            if isinstance(init, types.FunctionType):
+                return init, None, "class"
+        return None
+
+    def _inline(self, target, f, args, kws, cons):
+        fn, bound, kind = target
+        if self.depth > 12:
+            raise Unsupported("inline depth")
+        obj = None
+        if kind == "class":
+            obj = object.__new__(f)
+            args = [obj] + list(args)
+        elif bound is not None:
+            args = [bound] + list(args)
+        fd, globs, _ = function_ast(fn)
+        a = fd.args
+        if a.vararg or a.kwarg or a.kwonlyargs or a.posonlyargs:
+            if a.vararg or a.kwarg:
+                # *args / **kwargs are accepted only when nothing lands in them
+                pass
+        names = [x.arg for x in a.args]
+        if len(args) > len(names) and not a.vararg:
+            return [(RaiseV(TypeError, "too many positional arguments"), cons)]
+        env = dict(zip(names, args))
+        if a.vararg:
+            env[a.vararg.arg] = tuple(args[len(names):])
+        if a.kwarg:
+            env[a.kwarg.arg] = {k: v for k, v in kws.items() if k not in names}
+        for k, v in kws.items():
+            if k in names:
+                env[k] = v
+            elif not a.kwarg:
+                return [(RaiseV(TypeError, f"unexpected keyword {k}"), cons)]
+        sub = Evaluator(self.ctx, globs, self.stubs, self.depth + 1)
+        defaults = dict(zip(names[len(names) - len(a.defaults):], a.defaults))
+        for n in names:
+            if n not in env:
+                if n in defaults:
+                    (v, _), = sub.ev(defaults[n], {}, [])
+                    env[n] = v
+                else:
+                    return [(RaiseV(TypeError, f"missing argument {n}"), cons)]
+        out = []
+        for o in sub.run_block(fd.body, env, cons):
+            if o.kind == "raise":
+                out.append((o.value if isinstance(o.value, RaiseV) else RaiseV(o.value), o.cons))
+            elif kind == "class":
+                out.append((o.env[names[0]] if names[0] in o.env else obj, o.cons))
+            else:
+                out.append((o.value if o.kind == "return" else None, o.cons))
+        return out
 
     # ---- statements ------------------------------------------------------
     def run_block(self, stmts, env, cons):
-        """returns list of Outcome(kind in {'fall','return','raise'})"""
+        """returns list of Outcome(kind in {'fall','return','raise','break','continue'})"""
         states = [(env, cons)]
         finished = []
         for st in stmts:
@@ -580,59 +785,232 @@ class Evaluator:
                 break
         return finished + [Outcome("fall", None, c, e) for e, c in states]
 
+    def _fork(self, alts, env):
+        """pair every alternative with its own copy of the environment (mutable objects are not shared
+        between paths); a single alternative keeps the environment as it is"""
+        if len(alts) <= 1:
+            return [(v, c, env) for v, c in alts]
+        out = []
+        for v, c in alts:
+            e2, v2 = copy.deepcopy((env, v))
+            out.append((v2, c, e2))
+        return out
+
     def run_stmt(self, st, env, cons):
         if isinstance(st, ast.Expr):
             if isinstance(st.value, ast.Constant):
                 return [Outcome("fall", None, cons, env)]
-            return [Outcome("fall", None, c, env) for _, c in self.ev(st.value, env, cons)]
+            return [Outcome("raise", v, c, e) if isinstance(v, RaiseV) else Outcome("fall", None, c, e)
+                    for v, c, e in self._fork(self.ev(st.value, env, cons), env)]
         if isinstance(st, ast.Assign):
             if len(st.targets) != 1:
                 raise Unsupported("multi-target assign")
             out = []
-            for v, c in self.ev(st.value, env, cons):
-                e2 = dict(env)
-                self.assign(st.targets[0], v, e2)
-                out.append(Outcome("fall", None, c, e2))
+            for v, c, e in self._fork(self.ev(st.value, env, cons), env):
+                if isinstance(v, RaiseV):
+                    out.append(Outcome("raise", v, c, e))
+                    continue
+                e2 = dict(e)
+                r = self.assign(st.targets[0], v, e2, c)
+                out.append(Outcome("raise", r, c, e2) if isinstance(r, RaiseV) else Outcome("fall", None, c, e2))
             return out
         if isinstance(st, ast.AugAssign):
-            if not isinstance(st.target, ast.Name):
-                raise Unsupported("augassign target")
             out = []
-            cur = self.ev(st.target, env, cons)
-            for a, c in cur:
+            load = copy.copy(st.target)
+            load.ctx = ast.Load()
+            alts = []
+            for a, c in self.ev(load, env, cons):
+                if isinstance(a, RaiseV):
+                    alts.append((a, c))
+                    continue
                 for b, c2 in self.ev(st.value, env, c):
-                    for v, c3 in self.binop(st.op, a, b, c2):
-                        e2 = dict(env)
-                        e2[st.target.id] = v
-                        out.append(Outcome("fall", None, c3, e2))
+                    if isinstance(b, RaiseV):
+                        alts.append((b, c2))
+                    else:
+                        alts.extend(self.binop(st.op, a, b, c2))
+            for v, c, e in self._fork(alts, env):
+                if isinstance(v, RaiseV):
+                    out.append(Outcome("raise", v, c, e))
+                    continue
+                e2 = dict(e)
+                self.assign(st.target, v, e2, c)
+                out.append(Outcome("fall", None, c, e2))
             return out
         if isinstance(st, ast.If):
             out = []
-            for t, c in self.branch(st.test, env, cons):
-                out.extend(self.run_block(st.body if t else st.orelse, env, c))
+            alts = self.branch(st.test, env, cons)
+            for t, c, e in self._fork(alts, env):
+                if isinstance(t, RaiseV):
+                    out.append(Outcome("raise", t, c, e))
+                else:
+                    out.extend(self.run_block(st.body if t else st.orelse, e, c))
             return out
         if isinstance(st, ast.Return):
             if st.value is None:
                 return [Outcome("return", None, cons, env)]
-            return [Outcome("return", v, c, env) for v, c in self.ev(st.value, env, cons)]
+            return [Outcome("raise", v, c, e) if isinstance(v, RaiseV) else Outcome("return", v, c, e)
+                    for v, c, e in self._fork(self.ev(st.value, env, cons), env)]
         if isinstance(st, ast.Raise):
-            name = ast.unparse(st.exc.func if isinstance(st.exc, ast.Call) else st.exc) if st.exc else "?"
-            return [Outcome("raise", name, cons, env)]
+            if st.exc is None:
+                return [Outcome("raise", RaiseV(Exception, "re-raise"), cons, env)]
+            cls_node = st.exc.func if isinstance(st.exc, ast.Call) else st.exc
+            try:
+                (cls, _), = self.ev(cls_node, env, cons)
+            except Exception:
+                cls = Exception
+            return [Outcome("raise", RaiseV(cls, ast.unparse(cls_node)), cons, env)]
         if isinstance(st, ast.Pass):
             return [Outcome("fall", None, cons, env)]
+        if isinstance(st, ast.Break):
+            return [Outcome("break", None, cons, env)]
+        if isinstance(st, ast.Continue):
+            return [Outcome("continue", None, cons, env)]
+        if isinstance(st, ast.For):
+            if st.orelse:
+                raise Unsupported("for-else")
+            out = []
+            for it, c, e in self._fork(self.ev(st.iter, env, cons), env):
+                if isinstance(it, RaiseV):
+                    out.append(Outcome("raise", it, c, e))
+                    continue
+                if _sym(it) or isinstance(it, (DecStr, IntStr)):
+                    raise Unsupported("iteration over a symbolic value")
+                items = list(it)
+                states = [(e, c)]
+                for item in items:
+                    nxt = []
+                    for e1, c1 in states:
+                        e2 = dict(e1)
+                        self.assign(st.target, item, e2, c1)
+                        for o in self.run_block(st.body, e2, c1):
+                            if o.kind in ("fall", "continue"):
+                                nxt.append((o.env, o.cons))
+                            elif o.kind == "break":
+                                out.append(Outcome("fall", None, o.cons, o.env))
+                            else:
+                                out.append(o)
+                    states = nxt
+                    if not states:
+                        break
+                out.extend(Outcome("fall", None, c1, e1) for e1, c1 in states)
+            return out
+        if isinstance(st, ast.While):
+            out = []
+            states = [(env, cons)]
+            for _ in range(10000):
+                nxt = []
+                for e1, c1 in states:
+                    for t, c2, e2 in self._fork(self.branch(st.test, e1, c1), e1):
+                        if isinstance(t, RaiseV):
+                            out.append(Outcome("raise", t, c2, e2))
+                        elif not t:
+                            out.append(Outcome("fall", None, c2, e2))
+                        else:
+                            for o in self.run_block(st.body, e2, c2):
+                                if o.kind in ("fall", "continue"):
+                                    nxt.append((o.env, o.cons))
+                                elif o.kind == "break":
+                                    out.append(Outcome("fall", None, o.cons, o.env))
+                                else:
+                                    out.append(o)
+                states = nxt
+                if not states:
+                    return out
+                if len(states) > 64:
+                    raise Unsupported("while loop forks too much")
+            raise Unsupported("while loop bound")
+        if isinstance(st, ast.Try):
+            if st.finalbody or st.orelse:
+                raise Unsupported("try/finally/else")
+            out = []
+            for o in self.run_block(st.body, env, cons):
+                if o.kind != "raise":
+                    out.append(o)
+                    continue
+                et = o.value.exc_type if isinstance(o.value, RaiseV) else Exception
+                handled = False
+                for h in st.handlers:
+                    if h.type is None:
+                        match = True
+                    else:
+                        (ht, _), = self.ev(h.type, o.env, o.cons)
+                        match = isinstance(et, type) and issubclass(et, ht)
+                    if match:
+                        e2 = dict(o.env)
+                        if h.name:
+                            e2[h.name] = et(o.value.text) if isinstance(et, type) else Exception()
+                        out.extend(self.run_block(h.body, e2, o.cons))
+                        handled = True
+                        break
+                if not handled:
+                    out.append(o)
+            return out
         raise Unsupported(f"statement {type(st).__name__} at line {st.lineno}")
 
-    def assign(self, target, v, env):
+    def assign(self, target, v, env, cons=None):
         if isinstance(target, ast.Name):
             env[target.id] = v
         elif isinstance(target, (ast.Tuple, ast.List)):
             vs = list(v)
             if len(vs) != len(target.elts):
-                raise Unsupported("unpack arity")
+                return RaiseV(ValueError, "unpack arity")
             for t, x in zip(target.elts, vs):
-                self.assign(t, x, env)
+                self.assign(t, x, env, cons)
+        elif isinstance(target, ast.Attribute):
+            (obj, _), = self.ev(target.value, env, cons or [])
+            setattr(obj, target.attr, v)
+        elif isinstance(target, ast.Subscript):
+            (obj, _), = self.ev(target.value, env, cons or [])
+            (idx, _), = self.ev(target.slice, env, cons or [])
+            obj[idx] = v
         else:
             raise Unsupported("assign target")
+        return None
+
+    def ev_ListComp(self, node, env, cons):
+        if len(node.generators) != 1 or node.generators[0].is_async:
+            raise Unsupported("comprehension shape")
+        g = node.generators[0]
+        (it, c0), = self.ev(g.iter, env, cons)
+        states = [([], c0)]
+        for item in list(it):
+            nxt = []
+            for acc, c in states:
+                e2 = dict(env)
+                self.assign(g.target, item, e2, c)
+                conds = [(True, c)]
+                for cond in g.ifs:
+                    conds = [(t and t2, c3) for t, c2 in conds for t2, c3 in self.branch(cond, e2, c2)]
+                for t, c2 in conds:
+                    if not t:
+                        nxt.append((acc, c2))
+                    else:
+                        for v, c3 in self.ev(node.elt, e2, c2):
+                            nxt.append((acc + [v], c3))
+            states = nxt
+        return [(vals, c) for vals, c in states]
+
+    def ev_Dict(self, node, env, cons):
+        alts = [({}, cons)]
+        for k, v in zip(node.keys, node.values):
+            alts = [({**d, kk: vv}, c3) for d, c in alts for kk, c2 in self.ev(k, env, c) for vv, c3 in self.ev(v, env, c2)]
+        return alts
+
+    def ev_JoinedStr(self, node, env, cons):
+        alts = [("", cons)]
+        for part in node.values:
+            if isinstance(part, ast.Constant):
+                alts = [(s + part.value, c) for s, c in alts]
+            else:
+                nxt = []
+                for s_, c in alts:
+                    for v, c2 in self.ev(part.value, env, c):
+                        if _has_sym(v, 1):
+                            nxt.append((s_ + "<symbolic>", c2))
+                        else:
+                            nxt.append((s_ + format(v), c2))
+                alts = nxt
+        return alts
 
 
 def function_ast(fn):
@@ -666,6 +1044,14 @@ def run_function(ctx, fn, env, stubs=None):
                 raise Unsupported(f"missing parameter {n}")
     outs = ev.run_block(fd.body, env, [])
     return [Outcome("return", None, o.cons, o.env) if o.kind == "fall" else o for o in outs]
+
+
+def raise_name(o):
+    """name of the exception class of a 'raise' outcome"""
+    v = o.value
+    if isinstance(v, RaiseV):
+        return getattr(v.exc_type, "__name__", str(v.exc_type))
+    return str(v)
 
 
 def model_int(model, term):
